@@ -1,5 +1,8 @@
 import Exetera.Props.C17
 import Exetera.Lemmas.GenKernelsJournal
+import Exetera.Lemmas.GenKernelsJournalMerge
+import Exetera.Lemmas.GenKernelsJournalIndexed
+import Exetera.Lemmas.GenKernelsJournalMergeIndexed
 /-!
   C17 over the TRANSLATED journalling kernels (`Gen/Kernels.lean`, regenerated from operations.py by tools/translate_njit.py on
   every run).
@@ -59,5 +62,156 @@ theorem gen_compare_rows_to_keep (ok nk o n : List Int) (ho : o.length = ok.leng
 
 example : compare_rows_for_journalling.run (indices [4, 4, 6] [4, 8]).1 (indices [4, 4, 6] [4, 8]).2 [7, 7, 9] [7, 5]
     [false, false, false] = .ok [false, false, true] := by rfl
+
+/-! ## compare_indexed_rows_for_journalling (three `assert`s, `indices[-1]`, slices compared with `np.array_equal`) -/
+
+/-- transfer: every `.ok` run of the model `compareIndexedRows` (its assertions passed) is a run of the translated kernel with the
+    same `to_keep`; no map entry below -1 (the model wraps a negative row number, the translation rejects it) -/
+theorem gen_compare_indexed_rows_ok (om nm : List Int) (oi : List Nat) (ov : List Int) (ni : List Nat) (nv : List Int)
+    (tk tk' : List Bool) (hom : ∀ x ∈ om, -1 ≤ x) (hnm : ∀ x ∈ nm, -1 ≤ x)
+    (h : compareIndexedRows om nm oi ov ni nv tk = .ok tk') :
+    compare_indexed_rows_for_journalling.run om nm (ints oi) ov (ints ni) nv tk = .ok tk' :=
+  compare_indexed_rows_ok om nm oi ov ni nv tk tk' hom hnm h
+
+example : compareIndexedRows [1, 2, -1] [0, -1, 1] [0, 1, 2, 2] [1, 2] [0, 1, 2] [3, 4] [false, false, false]
+    = .ok [true, false, true] := by rfl
+example : compare_indexed_rows_for_journalling.run [1, 2, -1] [0, -1, 1] [0, 1, 2, 2] [1, 2] [0, 1, 2] [3, 4] [false, false, false]
+    = .ok [true, false, true] := by rfl
+-- a failed assertion (`old_indices[-1] != len(old_values)`)
+example : compare_indexed_rows_for_journalling.run [0] [0] [0, 1] [] [0, 0] [] [false] = .error (.other "AssertionError") := by rfl
+
+/-- one indexed string field compared by the TRANSLATED kernel on the specified maps, starting from an all-False `to_keep`: the
+    assertions pass, no subscript is out of range or negative, and `to_keep` is, slot by slot, the specified flag -/
+theorem gen_compare_indexed_rows_to_keep (ok nk : List Int) (o n : List (List Int)) (ho : o.length = ok.length)
+    (hn : n.length = nk.length) :
+    compare_indexed_rows_for_journalling.run (indices ok nk).1 (indices ok nk).2 (ints (encode o).1) (encode o).2
+      (ints (encode n).1) (encode n).2 (List.replicate (indices ok nk).1.length false)
+      = .ok (toKeep ok nk (differsAny [Col.str o n])) := by
+  have h := C17.to_keep_iff_new_or_differs ok nk [Col.str o n] (by simp)
+    (by intro c hc; simp only [List.mem_singleton] at hc; subst hc; exact ⟨ho, hn⟩)
+  simp only [List.map_cons, List.map_nil, Col.enc, compareCols, compareCol] at h
+  cases hr : compareIndexedRows (indices ok nk).1 (indices ok nk).2 (encode o).1 (encode o).2 (encode n).1 (encode n).2
+      (List.replicate (indices ok nk).1.length false) with
+  | error e => rw [hr] at h; simp at h
+  | ok tk' =>
+    rw [hr] at h
+    simp only [Except.ok.injEq] at h
+    subst h
+    exact compare_indexed_rows_ok _ _ _ _ _ _ _ _ (indices_fst_ge ok nk) (indices_snd_ge ok nk) hr
+
+/-! ## merge_journalled_entries / merge_indexed_journalled_entries_count
+
+  Transfer form again: the model reads `new_src[new_map[i]]` through `getI` (a negative subscript wraps around once, as numpy does),
+  the translation makes a negative subscript an error; hence the hypothesis that every KEPT slot has a non-negative `new_map` entry
+  (on the specified maps a kept slot always has a snapshot row: `hnew_fNew`).  The model's inner `while` runs on its own
+  per-iteration fuel, the translated kernel on one global fuel: any fuel that covers the destination (resp. the old offsets) will do. -/
+
+theorem gen_merge_entries_ok (om nm : List Int) (tk : List Bool) (oldSrc newSrc : List Int) (cap fuel : Nat) (r : List Int)
+    (hfuel : cap ≤ fuel) (hnn : ∀ (i : Nat) (n : Int), tk[i]? = some true → nm[i]? = some n → 0 ≤ n)
+    (h : mergeEntries om nm tk oldSrc newSrc cap = .ok r) :
+    merge_journalled_entries.run om nm tk oldSrc newSrc (List.replicate cap 0) fuel = .ok r :=
+  merge_journalled_entries_ok om nm tk oldSrc newSrc cap fuel r hfuel hnn h
+
+theorem gen_merge_indexed_count_ok (om nm : List Int) (tk : List Bool) (oi ni : List Nat) (fuel r : Nat)
+    (hfuel : oi.length ≤ fuel) (hnn : ∀ (i : Nat) (n : Int), tk[i]? = some true → nm[i]? = some n → 0 ≤ n)
+    (h : mergeIndexedCount om nm tk oi ni = .ok r) :
+    merge_indexed_journalled_entries_count.run om nm tk (ints oi) (ints ni) fuel = .ok (r : Int) :=
+  merge_indexed_journalled_entries_count_ok om nm tk oi ni fuel r hfuel hnn h
+
+example : mergeEntries [1, 2, -1] [0, -1, 1] [true, false, true] [7, 7, 9] [7, 5] 5 = .ok [7, 7, 7, 9, 5] := by rfl
+example : merge_journalled_entries.run [1, 2, -1] [0, -1, 1] [true, false, true] [7, 7, 9] [7, 5] [0, 0, 0, 0, 0] 5
+    = .ok [7, 7, 7, 9, 5] := by rfl
+example : merge_indexed_journalled_entries_count.run [1, 2, -1] [0, -1, 1] [true, false, true] [0, 1, 2, 2] [0, 1, 2] 4
+    = .ok 4 := by rfl
+
+/-- on the specified maps every kept slot has a snapshot row -/
+theorem kept_slots_nonneg (ok nk : List Int) (d : Nat → Nat → Bool) (i : Nat) (n : Int)
+    (hk : (toKeep ok nk d)[i]? = some true) (hn : (indices ok nk).2[i]? = some n) : 0 ≤ n := by
+  rw [toKeep_eq_map] at hk
+  rw [indices_eq_map] at hn
+  simp only [List.getElem?_map] at hk hn
+  cases hkey : (keyUnion ok nk)[i]? with
+  | none => simp [hkey] at hk
+  | some k =>
+    simp only [hkey, Option.map_some, Option.some.injEq] at hk hn
+    subst hn
+    exact (hnew_fNew d nk.length rfl k hk).1
+
+/-- the statement of `C17.merge_eq_spec` (numeric field) for the TRANSLATED `merge_journalled_entries`: on the specified maps and
+    flags, with a zero-filled destination of the size `journal_table` allocates, it returns normally (no subscript out of range or
+    negative, the inner loop finishes) and the destination is exactly the field read along the specification's plan -/
+theorem gen_merge_entries_spec {ok nk : List Int} (hso : ok.Pairwise (· ≤ ·)) (hsn : nk.Pairwise (· < ·)) (d : Nat → Nat → Bool)
+    (o n : List Int) (ho : o.length = ok.length) (hn : n.length = nk.length) (fuel : Nat)
+    (hfuel : ok.length + (toKeep ok nk d).count true ≤ fuel) :
+    merge_journalled_entries.run (indices ok nk).1 (indices ok nk).2 (toKeep ok nk d) o n
+      (List.replicate (ok.length + (toKeep ok nk d).count true) 0) fuel = .ok (column (plan ok nk d) o n) := by
+  have h := C17.merge_eq_spec hso hsn d (Col.num o n) ⟨ho, hn⟩
+  simp only [Col.enc, mergeCol, Col.out] at h
+  cases hm : mergeEntries (indices ok nk).1 (indices ok nk).2 (toKeep ok nk d) o n (ok.length + (toKeep ok nk d).count true) with
+  | error e => rw [hm] at h; simp at h
+  | ok r =>
+    rw [hm] at h
+    simp only [Except.ok.injEq, OutCol.num.injEq] at h
+    subst h
+    exact merge_journalled_entries_ok _ _ _ _ _ _ fuel _ hfuel (kept_slots_nonneg ok nk d) hm
+
+/-- the indexed-string counterpart: the TRANSLATED `merge_indexed_journalled_entries_count`, on the specified maps and the offset
+    arrays of the two encoded columns, returns the number of bytes of the field read along the specification's plan -/
+theorem gen_merge_indexed_count_spec {ok nk : List Int} (hso : ok.Pairwise (· ≤ ·)) (hsn : nk.Pairwise (· < ·))
+    (d : Nat → Nat → Bool) (o n : List (List Int)) (ho : o.length = ok.length) (hn : n.length = nk.length) (fuel : Nat)
+    (hfuel : (encode o).1.length ≤ fuel) :
+    merge_indexed_journalled_entries_count.run (indices ok nk).1 (indices ok nk).2 (toKeep ok nk d) (ints (encode o).1)
+      (ints (encode n).1) fuel = .ok (((column (plan ok nk d) o n).flatten.length : Nat) : Int) := by
+  have hplan := (plan_facts d hso hsn).1
+  have h := mergeIndexedCount_plan (keyUnion ok nk) (fOld ok) (fNew nk) (gKeep ok nk d) o n
+    (fun k _ => hold_fOld o.length ho k) (fun k _ hk => hnew_fNew d n.length hn k hk)
+  rw [hplan, ← toKeep_eq_map, ← show (indices ok nk).1 = (keyUnion ok nk).map (fOld ok) from rfl,
+    ← show (indices ok nk).2 = (keyUnion ok nk).map (fNew nk) from rfl] at h
+  exact merge_indexed_journalled_entries_count_ok _ _ _ _ _ fuel _ hfuel (kept_slots_nonneg ok nk d) h
+
+/-! ## merge_indexed_journalled_entries (offsets written one by one, bytes copied by slice assignment) -/
+
+theorem gen_merge_indexed_entries_ok (om nm : List Int) (tk : List Bool) (oi : List Nat) (ov : List Int) (ni : List Nat)
+    (nv : List Int) (capI capV fuel : Nat) (ri : List Nat) (rv : List Int) (hfuel : oi.length ≤ fuel)
+    (hnn : ∀ (i : Nat) (n : Int), tk[i]? = some true → nm[i]? = some n → 0 ≤ n)
+    (h : mergeIndexedEntries om nm tk oi ov ni nv capI capV = .ok (ri, rv)) :
+    merge_indexed_journalled_entries.run om nm tk (ints oi) ov (ints ni) nv (List.replicate capI 0) (List.replicate capV 0) fuel
+      = .ok (ints ri, rv) :=
+  merge_indexed_journalled_entries_ok om nm tk oi ov ni nv capI capV fuel ri rv hfuel hnn h
+
+/-- the statement of `C17.merge_eq_spec` (indexed string field) for the TRANSLATED `merge_indexed_journalled_entries`: on the
+    specified maps and flags, with zero-filled destinations of the sizes `journal_table` allocates (one offset per result row plus
+    one; the byte count `merge_indexed_journalled_entries_count` returned), it returns normally and the destinations are the
+    (indices, values) encoding of the field read along the specification's plan -/
+theorem gen_merge_indexed_entries_spec {ok nk : List Int} (hso : ok.Pairwise (· ≤ ·)) (hsn : nk.Pairwise (· < ·))
+    (d : Nat → Nat → Bool) (o n : List (List Int)) (ho : o.length = ok.length) (hn : n.length = nk.length) (fuel : Nat)
+    (hfuel : (encode o).1.length ≤ fuel) :
+    merge_indexed_journalled_entries.run (indices ok nk).1 (indices ok nk).2 (toKeep ok nk d) (ints (encode o).1) (encode o).2
+      (ints (encode n).1) (encode n).2 (List.replicate (ok.length + (toKeep ok nk d).count true + 1) 0)
+      (List.replicate (column (plan ok nk d) o n).flatten.length 0) fuel
+      = .ok (ints (encode (column (plan ok nk d) o n)).1, (encode (column (plan ok nk d) o n)).2) := by
+  have hplan := (plan_facts d hso hsn).1
+  have hcnt := mergeIndexedCount_plan (keyUnion ok nk) (fOld ok) (fNew nk) (gKeep ok nk d) o n
+    (fun k _ => hold_fOld o.length ho k) (fun k _ hk => hnew_fNew d n.length hn k hk)
+  rw [hplan, ← toKeep_eq_map, ← show (indices ok nk).1 = (keyUnion ok nk).map (fOld ok) from rfl,
+    ← show (indices ok nk).2 = (keyUnion ok nk).map (fNew nk) from rfl] at hcnt
+  have h := C17.merge_eq_spec hso hsn d (Col.str o n) ⟨ho, hn⟩
+  simp only [Col.enc, mergeCol, Col.out, hcnt] at h
+  cases hm : mergeIndexedEntries (indices ok nk).1 (indices ok nk).2 (toKeep ok nk d) (encode o).1 (encode o).2 (encode n).1
+      (encode n).2 (ok.length + (toKeep ok nk d).count true + 1) (column (plan ok nk d) o n).flatten.length with
+  | error e => rw [hm] at h; simp at h
+  | ok r =>
+    obtain ⟨ri, rv⟩ := r
+    rw [hm] at h
+    simp only [Except.ok.injEq, OutCol.str.injEq] at h
+    obtain ⟨h1, h2⟩ := h
+    subst h1 h2
+    exact merge_indexed_journalled_entries_ok _ _ _ _ _ _ _ _ _ fuel _ _ hfuel (kept_slots_nonneg ok nk d) hm
+
+example : merge_indexed_journalled_entries.run [1, 2, -1] [0, -1, 1] [true, false, true] [0, 1, 2, 2] [1, 2] [0, 1, 2] [3, 4]
+    [0, 0, 0, 0, 0, 0] [0, 0, 0, 0] 4 = .ok ([0, 1, 2, 3, 3, 4], [1, 2, 3, 4]) := by rfl
+
+example : merge_journalled_entries.run (indices [4, 4, 6] [4, 8]).1 (indices [4, 4, 6] [4, 8]).2
+    (toKeep [4, 4, 6] [4, 8] (fun _ _ => true)) [7, 7, 9] [7, 5] [0, 0, 0, 0, 0] 5 = .ok [7, 7, 7, 9, 5] := by rfl
 
 end Exetera.Props.C17Gen
